@@ -20,8 +20,15 @@ type Plan struct {
 	Zeros    []int `json:"zeros"`    // cyclic: number of (0,nil) reads before each chunk (each ≤ 3)
 	ErrAt    int   `json:"err_at"`   // stream position at which the terminal error occurs (≤ len(Data)); -1 = len(Data)
 	WithData bool  `json:"withdata"` // deliver the terminal error together with the last chunk
-	ErrKind  int   `json:"errkind"`  // 0 io.EOF, 1 io.ErrUnexpectedEOF, 2 ErrInjected, 3 wrapped ErrInjected
+	ErrKind  int   `json:"errkind"`  // 0 io.EOF, 1 io.ErrUnexpectedEOF, 2 ErrInjected, 3 wrapped ErrInjected, 4 CustomErr
+	// Recover: the error at ErrAt is transient. It is returned exactly once; afterwards the source
+	// serves Data[ErrAt:] and finally io.EOF (a connection that timed out once and then went on).
+	Recover bool `json:"recover,omitempty"`
 }
+
+// CustomErr is the error value of ErrKind 4; the test package may set it (e.g. to an error whose chain
+// contains an exception type of the code under test).
+var CustomErr error = fmt.Errorf("verif custom: %w", ErrInjected)
 
 // Err returns the terminal error value of the plan.
 func (p *Plan) Err() error {
@@ -32,6 +39,8 @@ func (p *Plan) Err() error {
 		return io.ErrUnexpectedEOF
 	case 2:
 		return ErrInjected
+	case 4:
+		return CustomErr
 	default:
 		return wrapped
 	}
@@ -63,7 +72,7 @@ func (p *Plan) Normalize(n int) {
 	if p.ErrAt < 0 || p.ErrAt > n {
 		p.ErrAt = n
 	}
-	if p.ErrKind < 0 || p.ErrKind > 3 {
+	if p.ErrKind < 0 || p.ErrKind > 4 {
 		p.ErrKind = 0
 	}
 }
@@ -80,6 +89,8 @@ type ScriptReader struct {
 	zleft    int
 	zinit    bool
 	done     bool
+	// Recovered is set once a transient error (Plan.Recover) has been returned.
+	Recovered bool
 }
 
 // NewScriptReader builds a reader; the plan is normalised against data.
@@ -91,7 +102,23 @@ func NewScriptReader(data []byte, plan Plan) *ScriptReader {
 }
 
 func (s *ScriptReader) Read(p []byte) (int, error) {
+	if s.Recovered {
+		// after the transient error: plain delivery of the rest, then io.EOF
+		if len(p) == 0 {
+			return 0, nil
+		}
+		s.Calls++
+		if s.Pos >= len(s.Data) {
+			return 0, io.EOF
+		}
+		n := copy(p, s.Data[s.Pos:])
+		s.Pos += n
+		return n, nil
+	}
 	if s.done {
+		if s.Plan.Recover {
+			s.Recovered = true
+		}
 		return 0, s.Plan.Err()
 	}
 	if len(p) == 0 {
@@ -109,6 +136,9 @@ func (s *ScriptReader) Read(p []byte) (int, error) {
 	remain := s.Plan.ErrAt - s.Pos
 	if remain == 0 {
 		s.done = true
+		if s.Plan.Recover {
+			s.Recovered = true
+		}
 		return 0, s.Plan.Err()
 	}
 	n := s.Plan.Chunks[s.i%len(s.Plan.Chunks)]
@@ -127,6 +157,9 @@ func (s *ScriptReader) Read(p []byte) (int, error) {
 	}
 	if s.Pos == s.Plan.ErrAt && s.Plan.WithData {
 		s.done = true
+		if s.Plan.Recover {
+			s.Recovered = true
+		}
 		return n, s.Plan.Err()
 	}
 	return n, nil
@@ -173,3 +206,73 @@ func (w *ScriptWriter) Bytes() []byte {
 	}
 	return out
 }
+
+// StrictReader is a minimal, non-allocating implementation of the bufiox.Reader method set over a byte
+// slice: Next/Peek return sub-slices, Skip only moves a cursor, nothing is ever allocated for a declared
+// size. It lets stream skippers that take a bufiox.Reader be fed hostile positive sizes. At the end of
+// the data every method returns Err (io.EOF by default).
+type StrictReader struct {
+	Data []byte
+	Pos  int
+	Rel  int
+	Err  error
+}
+
+func (r *StrictReader) fail() error {
+	if r.Err != nil {
+		return r.Err
+	}
+	return io.EOF
+}
+
+// Next ...
+func (r *StrictReader) Next(n int) ([]byte, error) {
+	if n < 0 {
+		return nil, errors.New("negative count")
+	}
+	if n > len(r.Data)-r.Pos {
+		return nil, r.fail()
+	}
+	b := r.Data[r.Pos : r.Pos+n : r.Pos+n]
+	r.Pos += n
+	return b, nil
+}
+
+// Peek ...
+func (r *StrictReader) Peek(n int) ([]byte, error) {
+	if n < 0 {
+		return nil, errors.New("negative count")
+	}
+	if n > len(r.Data)-r.Pos {
+		return nil, r.fail()
+	}
+	return r.Data[r.Pos : r.Pos+n : r.Pos+n], nil
+}
+
+// Skip ...
+func (r *StrictReader) Skip(n int) error {
+	if n < 0 {
+		return errors.New("negative count")
+	}
+	if n > len(r.Data)-r.Pos {
+		return r.fail()
+	}
+	r.Pos += n
+	return nil
+}
+
+// ReadBinary ...
+func (r *StrictReader) ReadBinary(bs []byte) (int, error) {
+	n := copy(bs, r.Data[r.Pos:])
+	r.Pos += n
+	if n < len(bs) {
+		return n, r.fail()
+	}
+	return n, nil
+}
+
+// ReadLen ...
+func (r *StrictReader) ReadLen() int { return r.Pos - r.Rel }
+
+// Release ...
+func (r *StrictReader) Release(e error) error { r.Rel = r.Pos; return nil }
